@@ -1,6 +1,7 @@
 package c08
 
 import (
+	"fmt"
 	"sort"
 	"testing"
 
@@ -10,7 +11,7 @@ import (
 // interfaceMethods lists every method of db.ReadOnly and db.Transaction (db/ops.go, ops_mailbox.go, ops_message.go,
 // ops_subscription.go). TestInterfaceEnumerated (reflection) makes sure the list is complete.
 var interfaceMethods = []string{
-	// MailboxReadOps (27)
+	// MailboxReadOps (25)
 	"MailboxExistsWithID", "MailboxExistsWithRemoteID", "MailboxExistsWithName", "GetMailboxIDFromRemoteID", "GetMailboxName",
 	"GetMailboxNameWithRemoteID", "GetMailboxMessageIDPairs", "GetAllMailboxesWithAttr", "GetAllMailboxesAsRemoteIDs", "GetMailboxByName",
 	"GetMailboxByID", "GetMailboxByRemoteID", "GetMailboxRecentCount", "GetMailboxMessageCount", "GetMailboxMessageCountWithRemoteID",
@@ -22,7 +23,7 @@ var interfaceMethods = []string{
 	"GetMessageDeletedFlag", "GetAllMessagesIDsAsMap",
 	// SubscriptionReadOps, connector settings (2)
 	"GetDeletedSubscriptionSet", "GetConnectorSettings",
-	// MailboxWriteOps (17)
+	// MailboxWriteOps (16)
 	"CreateMailbox", "GetOrCreateMailbox", "GetOrCreateMailboxAlt", "RenameMailboxWithRemoteID", "DeleteMailboxWithRemoteID",
 	"AddMessagesToMailbox", "RemoveMessagesFromMailbox", "ClearRecentFlagInMailboxOnMessage", "ClearRecentFlagsInMailbox",
 	"CreateMailboxIfNotExists", "SetMailboxMessagesDeletedFlag", "SetMailboxSubscribed", "UpdateRemoteMailboxID", "SetMailboxUIDValidity",
@@ -39,10 +40,8 @@ var stateMachineCases int
 // TestZ_AllMethodsCalled runs last (file order): every method of the interface was called by a rule at least once in
 // this run of the package. Skipped when the state machine did not run (go test -run of a single test, replays).
 func TestZ_AllMethodsCalled(t *testing.T) {
-	if methodCalls["CreateMailbox"] == 0 || ev.Checks(500, 3000) < 100 && len(methodCalls) < len(interfaceMethods) {
-		if methodCalls["CreateMailbox"] == 0 {
-			t.Skip("the state machine did not run in this process")
-		}
+	if stateMachineCases < 200 {
+		t.Skipf("the state machine ran %d cases in this process (single test, replay or scaled-down run): histogram not judged", stateMachineCases)
 	}
 
 	var missing []string
@@ -68,4 +67,6 @@ func TestZ_AllMethodsCalled(t *testing.T) {
 
 	t.Logf("all %d methods called; least called: %s x%d", len(interfaceMethods), minName, min)
 	ev.Extra("methods_total", len(interfaceMethods))
+	ev.Extra("methods_called", len(interfaceMethods)-len(missing))
+	ev.Extra("least_called_method", fmt.Sprintf("%s x%d", minName, min))
 }
